@@ -1,10 +1,10 @@
 #!/bin/sh
 # Build the framework offline from files on disk: regenerate the translated constants from /repo,
-# then build every Lean library (models, proofs, property theorems, drivers).
+# then build the Lean modules (models, proofs, property theorems, drivers) of every claimed check.
 set -e
 here="$(cd "$(dirname "$0")" && pwd)"
 cd "$here/harness" && /venv/bin/python extract.py "${ZODB_REPO:-/repo}" > "$here/lean/ZodbModel/Generated.lean.new"
 if ! cmp -s "$here/lean/ZodbModel/Generated.lean.new" "$here/lean/ZodbModel/Generated.lean"; then
   mv "$here/lean/ZodbModel/Generated.lean.new" "$here/lean/ZodbModel/Generated.lean"
 else rm -f "$here/lean/ZodbModel/Generated.lean.new"; fi
-cd "$here/lean" && lake build
+/venv/bin/python "$here/harness/build_claimed.py"
